@@ -130,10 +130,7 @@ theorem cacgScatter_hard {K N D : Nat} {a : Fin K → Fin (D+1) → ℂ} {c : Fi
       = (((D+1 : ℕ) : ℝ) : ℂ) * (a k d * conj (a k e)) := by
   obtain ⟨u, hu, hz⟩ := sc.obs
   rw [cacgScatter_eq]
-  have hw : (fun n => hardStart c k n * s n / max 1 (((10 : ℕ) : ℝ) * tiny)) = fun n => hardStart c k n * s n := by
-    funext n; rw [max_eq_left h10, div_one]
-  simp only [max_eq_left hden]
-  trace_state
+  simp only [max_eq_left hden, max_eq_left h10, div_one]
   rw [outer_scene a c u hu z hz, outer_scene a c u hu z hz]
   simp only [classMass_hard]
   set M : ℝ := ∑ n, hardStart c k n * s n with hM
@@ -149,6 +146,7 @@ theorem cacgScatter_hard {K N D : Nat} {a : Fin K → Fin (D+1) → ℂ} {c : Fi
   have h2 : ((1 + 1 : ℝ) : ℂ) ≠ 0 := by norm_num
   simp only [map_mul, map_div₀, Complex.conj_ofReal, Complex.conj_conj]
   field_simp
+  push_cast
   ring
 
 /-- `eigh` honours its contract on every scatter matrix of the cACG M-step on the data -/
